@@ -18,7 +18,8 @@ from translate import Untranslatable
 
 LEAN_TY = {"Dt": "HelpPy.HDt", "NDt": "HelpPy.HDt", "Zone": "HelpPy.Zone", "OptZone": "(Option HelpPy.Zone)", "Bool": "Bool",
            "Int": "Int", "OptInt": "(Option Int)", "HasFn": "Bool", "Fixed": "HelpPy.Fixed", "OffArg": "HelpPy.OffArg",
-           "Name": "(Option (List UInt8))", "Other": "Fact.Zone", "Tri": "Fact.Tri"}
+           "Name": "(Option (List UInt8))", "Other": "Fact.Zone", "Tri": "Fact.Tri", "Local": "HelpPy.Local", "Str": "String",
+           "StrPair": "(String × String)"}
 
 
 class Fn:
@@ -44,9 +45,14 @@ SPECS = [
     Fn("tzoffset.is_ambiguous", "tzoffset_isAmbiguous", [("dt", "Dt")], "Bool", self_ty="Fixed"),
     Fn("tzoffset.fromutc", "tzoffset_fromutc", [("dt", "Dt")], "Dt", self_ty="Fixed"),
     Fn("tzoffset.__eq__", "tzoffset_eq", [("other", "Other")], "Tri", self_ty="Fixed"),
+    Fn("tzlocal.__init__", "tzlocal_init", [], "Local", ctor=True),
+    Fn("tzlocal.__eq__", "tzlocal_eq", [("other", "Other")], "Tri", self_ty="Local"),
 ]
 BY_NAME = {s.qual: s for s in SPECS}
-CTOR_FIELDS = {"_name": ("name", "Name"), "_offset": ("offset", "Int")}
+FIELDS = {"Fixed": {"_name": ("name", "Name"), "_offset": ("offset", "Int")},
+          "Local": {"_std_offset": ("stdOffset", "Int"), "_dst_offset": ("dstOffset", "Int"), "_dst_saved": ("dstSaved", "Int"),
+                    "_hasdst": ("hasdst", "Bool"), "_tznames": ("tznames", "StrPair")}}
+CTOR_FIELDS = FIELDS["Fixed"]
 
 
 def find_def(tree, qual, versioned=False):
@@ -77,6 +83,7 @@ class Tr:
         self.spec = spec
         self.env = {}
         self.tmp = 0
+        self.cfields = FIELDS.get(spec.ret if spec.ctor else (spec.self_ty or ""), {})
 
     def fresh(self):
         self.tmp += 1
@@ -112,15 +119,32 @@ class Tr:
             if e.id == "NotImplemented": return [], "Fact.Tri.ni", "Tri"
             raise Untranslatable("name %s" % e.id)
         if isinstance(e, ast.Attribute):
-            if isinstance(e.value, ast.Name) and e.value.id == "self" and e.attr in CTOR_FIELDS and self.spec.self_ty == "Fixed":
-                f, ty = CTOR_FIELDS[e.attr]
+            if isinstance(e.value, ast.Name) and e.value.id == "self" and e.attr in self.cfields:
+                if self.spec.ctor:
+                    if ("self_" + e.attr) not in self.env: raise Untranslatable("self.%s read before it is set" % e.attr)
+                    return [], "self_" + e.attr, self.env["self_" + e.attr]
+                f, ty = self.cfields[e.attr]
                 return [], "self.%s" % f, ty
+            if isinstance(e.value, ast.Name) and e.value.id == "time" and e.attr in ("timezone", "altzone", "daylight"):
+                return [], "tm.%s" % e.attr, "Int"
+            if isinstance(e.value, ast.Name) and e.value.id == "time" and e.attr == "tzname":
+                return [], "tm.tzname", "StrPair"
             b, t, ty = self.expr(e.value)
             if ty in ("Dt", "NDt") and e.attr == "tzinfo": return b, "%s.tz" % t, "OptZone"
-            if ty == "Other" and e.attr == "_offset":
+            if ty == "Other" and e.attr in ("_offset", "_std_offset", "_dst_offset", "_name"):
                 n = self.fresh()
-                return b + [(n, "←", "HelpPy.offsetOf %s" % t)], n, "Int"
+                prim, rty = {"_offset": ("offsetOf", "Int"), "_std_offset": ("locStd", "Int"), "_dst_offset": ("locDst", "Int"),
+                             "_name": ("nameOfZone", "Str")}[e.attr]
+                return b + [(n, "←", "HelpPy.%s %s" % (prim, t))], n, rty
             raise Untranslatable("attribute .%s of %s" % (e.attr, ty))
+        if isinstance(e, ast.UnaryOp) and isinstance(e.op, ast.USub):
+            b, t, ty = self.expr(e.operand)
+            if ty == "Int": return b, "(-%s)" % t, "Int"
+            raise Untranslatable("unary minus on %s" % ty)
+        if isinstance(e, ast.Subscript) and isinstance(e.slice, ast.Constant) and e.slice.value in (0, 1):
+            b, t, ty = self.expr(e.value)
+            if ty == "StrPair": return b, "%s.%d" % (t, e.slice.value + 1), "Str"
+            raise Untranslatable("subscript of %s" % ty)
         if isinstance(e, ast.BinOp):
             bl, l, tl = self.expr(e.left); br, r, tr = self.expr(e.right)
             if isinstance(e.op, ast.Sub) and tl == tr == "NDt": return bl + br, "(%s.wall - %s.wall)" % (l, r), "Int"
@@ -137,6 +161,12 @@ class Tr:
     def call(self, e):
         f = e.func
         if isinstance(f, ast.Name):
+            if f.id == "bool" and len(e.args) == 1:
+                b, t, ty = self.expr(e.args[0])
+                if ty == "Int": return b, "(%s != 0)" % t, "Bool"
+            if f.id == "tuple" and len(e.args) == 1:
+                b, t, ty = self.expr(e.args[0])
+                if ty == "StrPair": return b, t, ty
             if f.id == "abs" and len(e.args) == 1:
                 b, t, ty = self.expr(e.args[0])
                 if ty == "Int": return b, "(Py.iabs %s)" % t, "Int"
@@ -154,8 +184,8 @@ class Tr:
                 classes = e.args[1].elts if isinstance(e.args[1], ast.Tuple) else [e.args[1]]
                 parts = []
                 for c in classes:
-                    if not (isinstance(c, ast.Name) and c.id in ("tzutc", "tzoffset")): raise Untranslatable("isinstance class")
-                    parts.append("HelpPy.%s %s" % ("isTzutc" if c.id == "tzutc" else "isTzoffset", t))
+                    if not (isinstance(c, ast.Name) and c.id in ("tzutc", "tzoffset", "tzlocal")): raise Untranslatable("isinstance class")
+                    parts.append("HelpPy.%s %s" % ({"tzutc": "isTzutc", "tzoffset": "isTzoffset", "tzlocal": "isTzlocal"}[c.id], t))
                 return b, "(" + " || ".join(parts) + ")", "Bool"
             if f.id in BY_NAME and "." not in f.id:
                 sp = BY_NAME[f.id]
@@ -231,15 +261,19 @@ class Tr:
                 if tl == "HasFn": return bl, (l if isinstance(op, ast.IsNot) else "(!%s)" % l)
                 if tl not in ("OptZone", "OptInt", "Name"): raise Untranslatable("`is None` on %s" % tl)
                 return bl, "(%s).%s" % (l, "isNone" if isinstance(op, ast.Is) else "isSome")
+            if isinstance(op, ast.In) and isinstance(right, ast.Set) and tl == "Str" \
+                    and all(isinstance(x, ast.Constant) and isinstance(x.value, str) for x in right.elts):
+                return bl, "(" + " || ".join('%s == "%s"' % (l, x.value) for x in right.elts) + ")"
             br, r, tr = self.expr(right)
             if isinstance(op, (ast.Eq, ast.NotEq)):
                 sym = "==" if isinstance(op, ast.Eq) else "!="
                 if tl == tr == "NDt": return bl + br, "(%s.wall %s %s.wall)" % (l, sym, r)
-                if tl == tr and tl in ("Int", "OptInt", "Bool"): return bl + br, "(%s %s %s)" % (l, sym, r)
+                if tl == tr and tl in ("Int", "OptInt", "Bool", "Str"): return bl + br, "(%s %s %s)" % (l, sym, r)
                 raise Untranslatable("comparison of %s with %s" % (tl, tr))
             raise Untranslatable("comparison")
         b, t, ty = self.expr(e)
         if ty == "Bool": return b, t
+        if ty == "Int": return b, "(%s != 0)" % t
         raise Untranslatable("truth value of %s" % ty)
 
     def boolval(self, e):
@@ -263,21 +297,29 @@ class Tr:
                 if isinstance(n, (ast.Assign, ast.AugAssign)):
                     for t in (n.targets if isinstance(n, ast.Assign) else [n.target]):
                         if isinstance(t, ast.Name) and t.id not in out: out.append(t.id)
+                        if isinstance(t, ast.Attribute) and isinstance(t.value, ast.Name) and t.value.id == "self" \
+                                and ("self_" + t.attr) not in out: out.append("self_" + t.attr)
         return out
 
     def block(self, stmts, ind):
         pad = "  " * ind
         if not stmts:
+            if getattr(self, "noend", False):
+                return [pad + "--END--"]
             if self.spec.ctor:
-                for a, (f, ty) in CTOR_FIELDS.items():
+                for a, (f, ty) in self.cfields.items():
                     if self.env.get("self_" + a) != ty: raise Untranslatable("self.%s not set by the constructor" % a)
-                return [pad + "pure { %s }" % ", ".join("%s := self_%s" % (f, a) for a, (f, _) in CTOR_FIELDS.items())]
+                return [pad + "pure { %s }" % ", ".join("%s := self_%s" % (f, a) for a, (f, _) in self.cfields.items())]
             return [pad + "throw Py.PyErr.TypeError  -- falls off the end (returns None)"]
         s, rest = stmts[0], stmts[1:]
         if isinstance(s, ast.Expr) and isinstance(s.value, ast.Constant):
             return self.block(rest, ind)
         if isinstance(s, ast.Pass):
             return self.block(rest, ind)
+        if isinstance(s, ast.Expr) and isinstance(s.value, ast.Call) and isinstance(s.value.func, ast.Attribute) \
+                and s.value.func.attr == "__init__" and isinstance(s.value.func.value, ast.Call) \
+                and isinstance(s.value.func.value.func, ast.Name) and s.value.func.value.func.id == "super" and not s.value.args:
+            return self.block(rest, ind)                  # _tzinfo.__init__ / datetime.tzinfo.__init__: no state
         if isinstance(s, ast.Return):
             b, t, ty = self.expr(s.value)
             b, t = self.coerce(b, t, ty, self.spec.ret)
@@ -296,9 +338,9 @@ class Tr:
                 if old in ("OptZone",) and ty != old: b, t = self.coerce(b, t, ty, old); ty = old
                 if ty in ("None", "StrLit"): raise Untranslatable("cannot type %s" % name)
             elif isinstance(tg, ast.Attribute) and isinstance(tg.value, ast.Name) and tg.value.id == "self" and self.spec.ctor \
-                    and tg.attr in CTOR_FIELDS:
+                    and tg.attr in self.cfields:
                 name = "self_" + tg.attr
-                b, t = self.coerce(b, t, ty, CTOR_FIELDS[tg.attr][1]); ty = CTOR_FIELDS[tg.attr][1]
+                b, t = self.coerce(b, t, ty, self.cfields[tg.attr][1]); ty = self.cfields[tg.attr][1]
             else:
                 raise Untranslatable("assignment target")
             self.env[name] = ty
@@ -317,18 +359,22 @@ class Tr:
                 return lines + ["%sif %s then do" % (pad, c)] + th + ["%selse do" % pad] + el
             names = self.assigned(list(s.body) + list(s.orelse))
             saved = dict(self.env)
-            names = [n for n in names if n in saved]          # a name first bound inside a branch stays local to it
+            both = [n for n in self.assigned(list(s.body)) if n in self.assigned(list(s.orelse))]
+            names = [n for n in names if n in saved or n in both]   # a name first bound inside ONE branch stays local to it
             if not names: raise Untranslatable("if statement without effect")
+            newtypes = {}
             ret = "pure %s" % (names[0] if len(names) == 1 else "(" + ", ".join(names) + ")")
             def branch(body):
                 self.env = dict(saved)
                 ls = self.block_noend(list(body), ind + 2)
                 for n in names:
-                    if self.env[n] != saved[n]: raise Untranslatable("%s changes its type in a branch (%s -> %s)" % (n, saved[n], self.env[n]))
+                    want = saved.get(n) or newtypes.setdefault(n, self.env[n])
+                    if self.env[n] != want: raise Untranslatable("%s changes its type in a branch (%s -> %s)" % (n, want, self.env[n]))
                 return ls + ["  " * (ind + 2) + ret]
             th = branch(s.body); el = branch(s.orelse)
             self.env = saved
-            tys = [LEAN_TY[saved[n]] for n in names]
+            self.env.update(newtypes)
+            tys = [LEAN_TY[self.env[n]] for n in names]
             lines.append("%slet %s ← ((if %s then do" % (pad, names[0] if len(names) == 1 else "(" + ", ".join(names) + ")", c))
             lines += th + ["%s  else do" % pad] + el
             lines.append("%s  ) : Py.R (%s))" % (pad, " × ".join(tys)))
@@ -360,11 +406,14 @@ class Tr:
     def block_noend(self, stmts, ind):
         """statements of a non-escaping branch (assignments only), without a final term"""
         lines = []
-        for s in stmts:
-            ls = self.block([s, ast.Pass()], ind)
-            if not ls or "falls off the end" not in ls[-1] and not ls[-1].strip().startswith("pure {"):
-                raise Untranslatable("branch statement")
-            lines += ls[:-1]
+        self.noend = True
+        try:
+            for s in stmts:
+                ls = self.block([s], ind)
+                if not ls or ls[-1].strip() != "--END--": raise Untranslatable("branch statement")
+                lines += ls[:-1]
+        finally:
+            self.noend = False
         return lines
 
     def function(self, fn):
@@ -374,7 +423,8 @@ class Tr:
         for k, d in enumerate(fn.args.defaults):
             if not (isinstance(d, ast.Constant) and d.value is None): raise Untranslatable("default of %s" % sp.qual)
         for n, t in sp.params: self.env[n] = t
-        params = (["(self : HelpPy.Fixed)"] if sp.self_ty == "Fixed" else []) + ["(%s : %s)" % (n, LEAN_TY[t]) for n, t in sp.params]
+        params = (["(self : %s)" % LEAN_TY[sp.self_ty]] if sp.self_ty in ("Fixed", "Local") else []) + \
+            (["(tm : HelpPy.TimeMod)"] if sp.qual == "tzlocal.__init__" else []) + ["(%s : %s)" % (n, LEAN_TY[t]) for n, t in sp.params]
         body = self.block(fn.body, 1)
         text = "/-- translated from `%s` -/\ndef %s %s : Py.R %s := do\n%s\n" % (sp.qual, sp.lean, " ".join(params), LEAN_TY[sp.ret], "\n".join(body))
         return text, hashlib.sha256(ast.dump(fn).encode()).hexdigest()[:16]
@@ -418,7 +468,7 @@ def translate_files(src_root, groups=None):
         text, fp = Tr(sp).function(fn)
         parts.append(text); fps[sp.qual] = fp
     if any(q.startswith("tzutc.") for q in quals):
-        for cls in ("tzutc", "tzoffset"):
+        for cls in ("tzutc", "tzoffset", "tzlocal"):
             parts.append(class_facts(tree, cls))
             fps[cls + ".<class facts>"] = hashlib.sha256(parts[-1].encode()).hexdigest()[:16]
     return "\n".join(parts), fps
